@@ -5,7 +5,7 @@ HOOK_COMMITS = ["ee93ed3"]
 _PENDING = "not yet claimed: the model/theorems for this property are still being built (see DESIGN.md section 6 build order); not a statement that the technique cannot apply"
 
 NOT_APPLICABLE = {p: _PENDING for p in
-                  ["C01", "C02", "C03", "C04", "C05", "C06", "C07", "C08", "C09", "C10", "C11", "C12", "C13",
+                  ["C01", "C02", "C03", "C04", "C05", "C06", "C07", "C08", "C09", "C10", "C11", "C13",
                    "C14", "C15", "C16", "C18", "C19", "C20"]}
 
 TEXT = {
@@ -13,5 +13,10 @@ TEXT = {
         technique="Coq proof: inductive invariant over all interleavings of atomic micro-steps (fetch_or / load / CAS) for any n>=2 parties + lock-step correspondence of the real Voter/Receiver with the model (exhaustive to depth, random beyond)",
         level="Machine-checked theorems (Props/C17.v, 12 theorems, no axioms) over an executable model of timeout_coord at atomic granularity: every schedule, every number of parties >= 2, unbounded length. They state: receiver ready iff all votes outstanding at once; unanimity never undone; vote result truthful; rescind=Pending implies not begun and cannot begin until that party votes again; rescind=Unanimous implies ready; drop counts as a permanent vote; no deadlock; rescind loop progress. The model is tied to the code by running the real Voter/Receiver on every op list to a depth bound (2 and 3 parties) plus random lists and comparing each result with the model's atomic API-level run, and by an independent property oracle on the implementation's trace.",
         note="Trusted: Coq kernel + vm_compute; the hand-written model and the Rust harness; single-location atomics modelled as interleaving (adequate for one AtomicU8); AtomicWaker. The implementation is only exercised single-threaded (each call atomic); interleavings inside rescind are covered by the theorems about the model only. A genuine defect (rescind did not clear `voted`) was found by this check and repaired in /repo commit 921e757 (KNOWN_FINDINGS.txt).",
+    ),
+    "C12": dict(
+        technique="Coq proof: inductive invariant (FIFO ghost logs, capacity, single-waker-slot parking discipline) over all poll sequences + per-op lock-step correspondence of the real byte channel (results and wake counts), exhaustive to a depth bound",
+        level="Machine-checked theorems (Props/C12.v, 10 theorems, no axioms) over an executable model of Conduit/ByteReader/ByteWriter including the coop budget layer, for every capacity >= 1 and every op list: reads ++ buffered = writes (prefix, order, no loss/duplication), buffered <= capacity, Pending implies parked-with-waker-in-slot or self-wake, a parked side is woken by any step that falsifies its wait condition or closes the channel, close is permanent, writes fail after close, reads drain then EOF. Tied to the code by hand-polling the real channel with counting wakers on every op list to a depth bound over capacities 1..3 plus random lists (cap <= 64, budget changes), comparing result and per-side wake counts after every op, and by an independent FIFO/wait-set oracle on the implementation trace.",
+        note="Trusted: Coq kernel + vm_compute; model + harness; the mutex makes a poll atomic; wakers deliver. Ghost fields (written/readlog/parked) are never read by transitions. Memory-level concurrency inside a poll is out of scope.",
     ),
 }
